@@ -84,6 +84,12 @@ func (r *round1) Update(msg model.ConsensusMessage) *Error {
 		return nil
 	}
 
+	// the share must be over this block's hash, not over a hash chosen by the sender
+	if si.GetDataHash() != bh.Hash {
+		r.logger.Errorf("sign data hash mismatch, id: %s. hash: %s, data hash: %s, height: %d", si.GetSignerID().GetHexString(), bh.Hash.String(), si.GetDataHash().String(), bh.Height)
+		return nil
+	}
+
 	// check data
 	if !si.VerifySign(pk) {
 		r.logger.Errorf("fail to verify sign, id: %s. hash: %s, height: %d", si.GetSignerID().GetHexString(), cvm.BlockHash.String(), bh.Height)
